@@ -327,11 +327,18 @@ func (g *docgen) rawSource() string {
 }
 
 // the source must be written with the un-normalised attribute values: keep the raw text separately
+var twin = gen.Twin{New: func() func() bool {
+	l := xml.NewLexer(parse.NewInputString("<?xml version='1.0'?><!DOCTYPE a [<!ENTITY e \"v\">]><a b='c\td' e=\"f\"><![CDATA[x]]]]><b/>t</a><!-- c -->"))
+	return func() bool { tt, _ := l.Next(); _, _ = l.Text(), l.AttrVal(); return tt != xml.ErrorToken }
+}}
+
 func lex(t fataler, src []byte) []tok {
 	l := xml.NewLexer(parse.NewInputBytes(src))
 	var out []tok
 	for i := 0; i <= len(src)+2; i++ {
 		tt, data := l.Next()
+		twin.Step()
+		_ = l.Err() // polled after every call: reading the error state must not disturb the lexer
 		if tt == xml.ErrorToken {
 			return out
 		}
